@@ -10,7 +10,7 @@ from ..specs import locked_lists
 
 DOCUMENTED = {"ValueError", "TypeError", "UnsupportedAlgorithm", "PidRefsDoesNotExist"}
 BAD_ID = [None, "", " ", "a b", "a\tb", "a\n", " lead", "trail ", " "]
-BAD_ALGO = ["sha257", "", "md6", "SHA-999", "a b"]
+BAD_ALGO = ["sha257", "", "md6", "SHA-999", "a b", "sha3256", "sha-3-256", "SHA_3_512", "sha3_2_56"]
 BAD_SIZE = [0, -1, "5", 1.5]
 BAD_DATA = [7, b"bytes", ["list"], "", "   ", "/nonexistent/file/xyz", None]
 DATA = pattern(300, 3)
@@ -78,6 +78,13 @@ def _method(args):
         store.store_metadata("meta-only", paths["doc"])  # metadata arrived before the object: the pid is unknown
         store.store_metadata("meta-only", paths["doc"], "fmt")
         store.store_object(None, paths["data2"])  # an unreferenced object
+    if populated:
+        # the instance has already served every supported algorithm in several spellings
+        for a in common.ALL_ALGOS:
+            for sp in (a, a.upper(), a.replace("_", "-")):
+                store.get_hex_digest("held", sp)
+        store.store_object("warm", paths["doc"], additional_algorithm="SHA3-256", checksum_algorithm="sha3_512",
+                           checksum=__import__("hashlib").sha3_512(b"<doc/>").hexdigest())
     g = grammar(paths)[method]
     res, n, classes = [], 0, set()
     before = snapshot(root)
